@@ -1,5 +1,6 @@
 import ZenonVerif.Lemmas.NodeCache
 import ZenonVerif.Gen.NodeCache
+import ZenonVerif.Gen.NodeState
 /-
 C06 — reorganisation leaves no trace, for the two stateful components that are not the versioned store
 (Model/NodeCache.lean): (A) the consensus layer's database of election results and statistics points, (B) the account
@@ -244,6 +245,184 @@ theorem pool_delete_drops_every_manager :
       ["em.changes.Lock()", "defer em.changes.Unlock()",
        "for _, listener := range em.listeners { listener.DeleteMomentum(detailed) }"] ∧
     Gen.ChainRegistersAccountPool = true := by decide
+
+/-! ### what a node remembers besides its ledger (regenerated from the AST: Gen/NodeState.lean)
+
+A reorganisation replaces the ledger. Whatever else the node keeps about the chain it was on must be keyed by something that names
+ONE chain (a hash), be re-validated against the current chain when it is read, or be dropped when a momentum is deleted — otherwise it
+answers for the abandoned branch (seeded C06-r3-1: elections remembered by tick NUMBER; C06-r3-2: ledger views remembered by
+identifier and never told about a rollback; C17-r3-2: enforcement heights remembered by spork id). The three lists below are the
+complete inventory of such state in consensus, consensus/storage, chain (and the containers of chain/account, chain/momentum); a new
+container, a new field of a long-lived object or a new key expression changes the generated list and these theorems fail until the
+inventory is reviewed again. -/
+
+/-- reviewed inventory of containers:
+    * `accountPool.managers` (by address): replaced as a whole by `DeleteMomentum` (`pool_delete_drops_every_manager`, `pool_no_trace`);
+    * `DB.electionCache` (by PROOF HASH, `election_cache_keyed_by_proof_hash`): a hash names one chain (`ChainWF`);
+    * `DB.pointCache` (by point type and TICK): every reader compares the stored end hash with the end block of the tick on the
+      current chain and, for epoch points, that the epoch is finished (`getpoint_compares_end_hash`, `stored_point_only_served_under_end_hash_comparison`);
+    * `Point.Pillars`: content of a point value (built per call or decoded from the database), not node state. -/
+def reviewedNodeStateHolders : List String := [
+  "chain/account_pool.go:accountPool.managers:map[types.Address]db.Manager",
+  "consensus/storage/db.go:DB.electionCache:*lru.Cache",
+  "consensus/storage/db.go:DB.pointCache:[]*lru.Cache",
+  "consensus/storage/point.go:Point.Pillars:map[string]*ProducerDetail"]
+
+set_option maxRecDepth 100000 in
+theorem node_state_holders_reviewed : Gen.nodeStateHolders = reviewedNodeStateHolders := by decide
+
+/-- reviewed inventory of the fields of every struct type of consensus, consensus/storage and chain. Chain-derived state outside the
+    containers above: `points.lastCompletedPeriod` / `lastCompletedEpoch` (never rolled back: they only decide which points
+    `InsertMomentum` PRE-computes; a point is judged by its end hash when read — `Model.NodeCache` carries them), and the listener
+    lists. Nothing else is remembered between calls: elections, delegations, producers and statistics are values built per call from
+    the chain or from the two keyed caches. -/
+def reviewedNodeStructFields : List String := [
+  "chain/account_pool.go:accountPool.changes:sync.Mutex",
+  "chain/account_pool.go:accountPool.log:log15.Logger",
+  "chain/account_pool.go:accountPool.managers:map[types.Address]db.Manager",
+  "chain/account_pool.go:accountPool.stable:Stable",
+  "chain/chain.go:chain.(embedded):*accountPool",
+  "chain/chain.go:chain.(embedded):*momentumEventManager",
+  "chain/chain.go:chain.(embedded):*momentumPool",
+  "chain/chain.go:chain.(embedded):store.Genesis",
+  "chain/chain.go:chain.chainManager:db.Manager",
+  "chain/chain.go:chain.insert:sync.Mutex",
+  "chain/chain.go:chain.log:common.Logger",
+  "chain/chain.go:inserter.mutex:*sync.Mutex",
+  "chain/chain.go:inserter.reason:string",
+  "chain/momentum_events.go:momentumEventManager.changes:sync.Mutex",
+  "chain/momentum_events.go:momentumEventManager.listeners:[]MomentumEventListener",
+  "chain/momentum_pool.go:momentumPool.(embedded):*momentumEventManager",
+  "chain/momentum_pool.go:momentumPool.chainManager:db.Manager",
+  "chain/momentum_pool.go:momentumPool.changes:sync.Mutex",
+  "chain/momentum_pool.go:momentumPool.genesis:store.Genesis",
+  "chain/momentum_pool.go:momentumPool.log:log15.Logger",
+  "consensus/api.go:API.er:ElectionReader",
+  "consensus/api.go:API.momentumStore:store.Momentum",
+  "consensus/api.go:API.points:Points",
+  "consensus/chain_ticker.go:chainTicker.(embedded):chain.Chain",
+  "consensus/chain_ticker.go:chainTicker.(embedded):common.Ticker",
+  "consensus/consensus.go:consensus.(embedded):*eventManager",
+  "consensus/consensus.go:consensus.chain:chain.Chain",
+  "consensus/consensus.go:consensus.closed:chan struct{}",
+  "consensus/consensus.go:consensus.electionManager:*electionManager",
+  "consensus/consensus.go:consensus.genesis:time.Time",
+  "consensus/consensus.go:consensus.log:common.Logger",
+  "consensus/consensus.go:consensus.points:Points",
+  "consensus/consensus.go:consensus.testing:bool",
+  "consensus/consensus.go:consensus.wg:sync.WaitGroup",
+  "consensus/context.go:Context.(embedded):common.Ticker",
+  "consensus/context.go:Context.(embedded):constants.Consensus",
+  "consensus/context.go:Context.GenesisTime:time.Time",
+  "consensus/election.go:electionManager.(embedded):Context",
+  "consensus/election.go:electionManager.algo:ElectionAlgorithm",
+  "consensus/election.go:electionManager.chain:chain.Chain",
+  "consensus/election.go:electionManager.db:*storage.DB",
+  "consensus/election.go:electionManager.log:common.Logger",
+  "consensus/election.go:electionResult.Delegations:[]*types.PillarDelegation",
+  "consensus/election.go:electionResult.ETime:time.Time",
+  "consensus/election.go:electionResult.Producers:[]*ProducerEvent",
+  "consensus/election.go:electionResult.STime:time.Time",
+  "consensus/election.go:electionResult.Tick:uint64",
+  "consensus/election_algorithm.go:AlgorithmConfig.delegations:[]*types.PillarDelegation",
+  "consensus/election_algorithm.go:AlgorithmConfig.hashH:*types.HashHeight",
+  "consensus/election_algorithm.go:electionAlgorithm.group:*Context",
+  "consensus/events.go:eventManager.changes:sync.Mutex",
+  "consensus/events.go:eventManager.listeners:[]EventListener",
+  "consensus/interfaces.go:ProducerEvent.EndTime:time.Time",
+  "consensus/interfaces.go:ProducerEvent.Name:string",
+  "consensus/interfaces.go:ProducerEvent.Producer:types.Address",
+  "consensus/interfaces.go:ProducerEvent.StartTime:time.Time",
+  "consensus/points.go:compoundPoints.(embedded):ChainTicker",
+  "consensus/points.go:compoundPoints.db:*storage.DB",
+  "consensus/points.go:compoundPoints.log:common.Logger",
+  "consensus/points.go:compoundPoints.lower:PointsReader",
+  "consensus/points.go:compoundPoints.lowerMultiplier:uint64",
+  "consensus/points.go:compoundPoints.prefix:byte",
+  "consensus/points.go:periodPoints.(embedded):ChainTicker",
+  "consensus/points.go:periodPoints.db:*storage.DB",
+  "consensus/points.go:periodPoints.electionReader:ElectionReader",
+  "consensus/points.go:periodPoints.log:common.Logger",
+  "consensus/points.go:points.epochPoints:PointsReader",
+  "consensus/points.go:points.epochTickMultiplier:int64",
+  "consensus/points.go:points.lastCompletedEpoch:int64",
+  "consensus/points.go:points.lastCompletedPeriod:int64",
+  "consensus/points.go:points.log:common.Logger",
+  "consensus/points.go:points.periodPoints:PointsReader",
+  "consensus/storage/db.go:DB.db:db.DB",
+  "consensus/storage/db.go:DB.electionCache:*lru.Cache",
+  "consensus/storage/db.go:DB.pointCache:[]*lru.Cache",
+  "consensus/storage/election_data.go:ElectionData.Delegations:[]*types.PillarDelegation",
+  "consensus/storage/election_data.go:ElectionData.Producers:[]types.Address",
+  "consensus/storage/point.go:Point.EndHash:types.Hash",
+  "consensus/storage/point.go:Point.Pillars:map[string]*ProducerDetail",
+  "consensus/storage/point.go:Point.PrevHash:types.Hash",
+  "consensus/storage/point.go:Point.TotalWeight:*big.Int",
+  "consensus/storage/point.go:ProducerDetail.ExpectedNum:uint32",
+  "consensus/storage/point.go:ProducerDetail.FactualNum:uint32",
+  "consensus/storage/point.go:ProducerDetail.Weight:*big.Int"]
+
+set_option maxRecDepth 100000 in
+theorem node_struct_fields_reviewed : Gen.nodeStructFields = reviewedNodeStructFields := by decide
+
+/-- reviewed accesses to the containers, with their key expressions: the election cache is read and written under `hash` (the proof
+    block's hash) only, the point caches under `[prefix]` and `height` (= tick; guarded by the end-hash comparison of the readers),
+    the pool's managers under `address` and replaced as a whole in `DeleteMomentum`. -/
+def reviewedNodeStateAccesses : List String := [
+  "chain/account_pool.go:accountPool.DeleteMomentum:managers = make(map[types.Address]db.Manager)",
+  "chain/account_pool.go:accountPool.GetAllUncommittedAccountBlocks:range managers",
+  "chain/account_pool.go:accountPool.getAccountManager:managers[address]",
+  "chain/account_pool.go:accountPool.getAccountManager:managers[address]",
+  "chain/account_pool.go:accountPool.getAccountManager:managers[address] = manager",
+  "chain/account_pool.go:accountPool.rebuild:delete(managers, address)",
+  "chain/account_pool.go:accountPool.rebuild:len(managers, )",
+  "chain/account_pool.go:accountPool.rebuild:managers[address]",
+  "chain/account_pool.go:accountPool.rebuild:managers[address]",
+  "chain/account_pool.go:accountPool.rebuild:managers[address] = manager",
+  "chain/account_pool.go:accountPool.rebuild:range managers",
+  "chain/account_pool.go:newAccountPool:managers: make(map[types.Address]db.Manager)",
+  "consensus/api.go:API.EpochStats:Pillars: make(map[string]*api.EpochPillarStats)",
+  "consensus/api.go:API.EpochStats:Pillars[pillarName]",
+  "consensus/api.go:API.EpochStats:Pillars[pillarName] = &api.EpochPillarStats{ Epoch: epoch, BlockNum: uint64(v.FactualNum), ExceptedBlockNum: uint64(v.ExpectedNum), Weight: v.Weight, Name: pillarName}",
+  "consensus/api.go:API.EpochStats:range Pillars",
+  "consensus/api.go:API.GetPillarWeights:range Pillars",
+  "consensus/points.go:compoundPoints.generatePointFromLower:range Pillars",
+  "consensus/points.go:periodPoints.generatePointFromChain:Pillars[delegation.Name]",
+  "consensus/points.go:periodPoints.generatePointFromChain:Pillars[delegation.Name]",
+  "consensus/points.go:periodPoints.generatePointFromChain:Pillars[delegation.Name] = &storage.ProducerDetail{ExpectedNum: 0, FactualNum: 0, Weight: big.NewInt(0).Set(delegation.Weight)}",
+  "consensus/points.go:periodPoints.generatePointFromChain:Pillars[nameLookup[v.Producer()]]",
+  "consensus/points.go:periodPoints.generatePointFromChain:Pillars[nameLookup[v.Producer()]]",
+  "consensus/points.go:periodPoints.generatePointFromChain:Pillars[nameLookup[v.Producer()]] = &storage.ProducerDetail{ExpectedNum: 0, FactualNum: 1, Weight: big.NewInt(0)}",
+  "consensus/points.go:periodPoints.generatePointFromChain:Pillars[v.Name]",
+  "consensus/points.go:periodPoints.generatePointFromChain:Pillars[v.Name]",
+  "consensus/points.go:periodPoints.generatePointFromChain:Pillars[v.Name] = &storage.ProducerDetail{ExpectedNum: 1, FactualNum: 0, Weight: big.NewInt(0)}",
+  "consensus/storage/db.go:DB.DeletePointByHeight:pointCache[prefix]",
+  "consensus/storage/db.go:DB.DeletePointByHeight:pointCache[prefix].Remove(height)",
+  "consensus/storage/db.go:DB.GetElectionResultByHash:electionCache.Add(hash)",
+  "consensus/storage/db.go:DB.GetElectionResultByHash:electionCache.Get(hash)",
+  "consensus/storage/db.go:DB.GetPointByHeight:pointCache[prefix]",
+  "consensus/storage/db.go:DB.GetPointByHeight:pointCache[prefix]",
+  "consensus/storage/db.go:DB.GetPointByHeight:pointCache[prefix].Add(height)",
+  "consensus/storage/db.go:DB.GetPointByHeight:pointCache[prefix].Get(height)",
+  "consensus/storage/db.go:DB.StoreElectionResultByHash:electionCache.Add(hash)",
+  "consensus/storage/db.go:DB.StorePointByHeight:pointCache[prefix]",
+  "consensus/storage/db.go:DB.StorePointByHeight:pointCache[prefix].Add(height)",
+  "consensus/storage/db.go:NewConsensusDB:electionCache: electionCache",
+  "consensus/storage/db.go:NewConsensusDB:pointCache: pointCache",
+  "consensus/storage/point.go:NewEmptyPoint:Pillars: make(map[string]*ProducerDetail)",
+  "consensus/storage/point.go:Point.LeftAppend:Pillars[k]",
+  "consensus/storage/point.go:Point.LeftAppend:Pillars[k]",
+  "consensus/storage/point.go:Point.LeftAppend:Pillars[k] = v.Copy()",
+  "consensus/storage/point.go:Point.LeftAppend:range Pillars",
+  "consensus/storage/point.go:Point.Marshal:len(Pillars, )",
+  "consensus/storage/point.go:Point.Marshal:len(Pillars, )",
+  "consensus/storage/point.go:Point.Marshal:range Pillars",
+  "consensus/storage/point.go:Point.Unmarshal:Pillars = make(map[string]*ProducerDetail, len(pb.Content))",
+  "consensus/storage/point.go:Point.Unmarshal:Pillars[v.Name]",
+  "consensus/storage/point.go:Point.Unmarshal:Pillars[v.Name] = &ProducerDetail{ExpectedNum: v.ExpectedNum, FactualNum: v.FactualNum, Weight: big.NewInt(0).SetBytes(v.Weight)}"]
+
+set_option maxRecDepth 100000 in
+theorem node_state_accesses_reviewed : Gen.nodeStateAccesses = reviewedNodeStateAccesses := by decide
 
 /-! ### the hypotheses are met -/
 
